@@ -18,14 +18,15 @@ fn real(v: &Val, ty: &Ty) -> f64 {
     }
 }
 
-/// three distinct ascending in-range values for a type, from value set `vs` (0 small, 1 extremes, 2 sign-mixed)
+/// three distinct ascending in-range values for a type, from value set `vs` (0 small, 1 extremes, 2 sign-mixed, 3 infinite ends)
 fn triple(ty: &Ty, vs: usize) -> [Val; 3] {
     match ty {
         Ty::F32 { .. } => {
             let t: [f32; 3] = match vs {
                 0 => [1.5, 2.25, 1000.125],
                 1 => [f32::MIN, f32::MIN_POSITIVE, f32::MAX],
-                _ => [-3.5, -0.0, 7.0],
+                2 => [-3.5, -0.0, 7.0],
+                _ => [f32::NEG_INFINITY, 2.0, f32::INFINITY],
             };
             [Val::F32(t[0]), Val::F32(t[1]), Val::F32(t[2])]
         }
@@ -33,7 +34,8 @@ fn triple(ty: &Ty, vs: usize) -> [Val; 3] {
             let t: [f64; 3] = match vs {
                 0 => [1.5, 2.25, 1000.125],
                 1 => [f64::MIN, f64::from_bits(1), f64::MAX],
-                _ => [-3.5, 0.0, 1e-300],
+                2 => [-3.5, 0.0, 1e-300],
+                _ => [f64::NEG_INFINITY, 2.0, f64::INFINITY],
             };
             [Val::F64(t[0]), Val::F64(t[1]), Val::F64(t[2])]
         }
@@ -126,7 +128,7 @@ pub fn bounds(ctx: &Ctx) {
     // green and blue may have a type of their own (default: the same as red)
     let gt = (colt + ctx.choose("green-type-shift", 6)) % 6;
     let bt = (colt + ctx.choose("blue-type-shift", 6)) % 6;
-    let vs = ctx.choose("value-set", 3);
+    let vs = ctx.choose("value-set", 4);
     let ov_i = ctx.choose("intensity-override", 5);
     let ov_c = ctx.choose("colour-override", 5);
 
@@ -203,7 +205,9 @@ pub fn bounds(ctx: &Ctx) {
             vec![([0, points.len() / 2, points.len()][k - 1], v)]
         }
     };
-    let spec = CloudSpec { meta, proto: proto.clone(), points: points.clone(), cap, abandon: false, rejects };
+    // the caller clears the default limits explicitly (set_*_limits(None)) before a possible override
+    let clear_limits = [(false, false), (true, false), (false, true), (true, true)][ctx.choose("limits-cleared-first", 4)];
+    let spec = CloudSpec { meta, proto: proto.clone(), points: points.clone(), cap, abandon: false, rejects, clear_limits };
     let p = Program { guid: "g".into(), ops: vec![Op::Cloud(spec)], ..Default::default() };
     ctx.describe(|| describe(&p));
     let Some(w) = write_valid(ctx, &p, P) else { return };
@@ -272,6 +276,8 @@ pub fn bounds(ctx: &Ctx) {
         let ty = &proto.iter().find(|r| r.name == "intensity").unwrap().ty;
         let exp: Option<[Option<LVal>; 2]> = if ov_i > 0 {
             Some([Some(override_val(ov_i, false)), Some(override_val(ov_i, true))])
+        } else if clear_limits.1 {
+            None
         } else {
             let (lo, hi) = type_limits(ty);
             if lo.is_some() && hi.is_some() {
@@ -296,6 +302,8 @@ pub fn bounds(ctx: &Ctx) {
         let exp: Option<[Option<LVal>; 6]> = if ov_c > 0 {
             let (lo, hi) = (Some(override_val(ov_c, false)), Some(override_val(ov_c, true)));
             Some([lo, hi, lo, hi, lo, hi])
+        } else if clear_limits.0 {
+            None
         } else {
             let tl = |n: &str| type_limits(&proto.iter().find(|r| r.name == n).unwrap().ty);
             let (r, g, b) = (tl("colorRed"), tl("colorGreen"), tl("colorBlue"));
